@@ -22,6 +22,32 @@ class Runaway(BaseException):
         self.detail = detail
 
 
+class ExecTimer:
+    """per-execution watchdog: an execution that does not come back within EXEC_TIMEOUT seconds of wall time (a loop inside
+    one activation never reaches the activation-count monitors) is aborted with Runaway('hang')"""
+    def __init__(self, seconds=None):
+        import os
+        self.seconds = seconds or float(os.environ.get('VERIF_EXEC_TIMEOUT', '20'))
+
+    def __enter__(self):
+        import signal
+        import threading
+        self.active = threading.current_thread() is threading.main_thread()
+        if self.active:
+            def on_alarm(signum, frame):
+                raise Runaway('hang', 'one execution took more than %g s of wall time' % self.seconds)
+            self.old = signal.signal(signal.SIGALRM, on_alarm)
+            signal.setitimer(signal.ITIMER_REAL, self.seconds)
+        return self
+
+    def __exit__(self, *exc):
+        import signal
+        if self.active:
+            signal.setitimer(signal.ITIMER_REAL, 0)
+            signal.signal(signal.SIGALRM, self.old)
+        return False
+
+
 #: stack of active execution contexts (nested usim.run share the innermost context)
 CURRENT = []
 #: scheduling-point callback used by the controlled thread scheduler
